@@ -145,11 +145,12 @@ theorem mem_outer (hit : Int → Int → Bool) (is js : List Int) (init : List (
       · exact Or.inr ⟨i', hi', h2⟩
 
 omit [IsStrictOrderedRing α] in
-/-- `__cellsCrossSegment` returns exactly the cells of the index box that pass the test -/
-theorem mem_cellsCross (fl : α → Int) (c1 c2 : α × α) (i j : Int) :
-    (i, j) ∈ cellsCross fl c1 c2 ↔
-      (min (fl c1.1) (fl c2.1) ≤ i ∧ i ≤ max (fl c1.1) (fl c2.1)) ∧
-      (min (fl c1.2) (fl c2.2) ≤ j ∧ j ≤ max (fl c1.2) (fl c2.2)) ∧ cellHit c1 c2 i j = true := by
+/-- `__cellsCrossSegment` returns exactly the cells of the (clamped) index box that pass the test -/
+theorem mem_cellsCross (fl : α → Int) (cs ls : Int) (c1 c2 : α × α) (i j : Int) :
+    (i, j) ∈ cellsCross fl cs ls c1 c2 ↔
+      (min (min (fl c1.1) (fl c2.1)) (cs - 1) ≤ i ∧ i ≤ min (max (fl c1.1) (fl c2.1)) (cs - 1)) ∧
+      (min (min (fl c1.2) (fl c2.2)) (ls - 1) ≤ j ∧ j ≤ min (max (fl c1.2) (fl c2.2)) (ls - 1)) ∧
+      cellHit c1 c2 i j = true := by
   unfold cellsCross
   simp only [mem_outer, mem_rangeI, List.not_mem_nil, false_or, Prod.mk.injEq]
   constructor
@@ -179,14 +180,30 @@ theorem floor_conv_box {fl : α → Int} (hf : IsFloor fl) (a b s : α) (hs0 : 0
     · rw [max_eq_left h] at h2
       exact le_trans (hf.mono h2) (le_max_left _ _)
 
-/-- T2 (`cells_complete`): the cell `(floor Px, floor Py)` of every point `P` of the segment `[c1, c2]`
-(fractional cell indices) is in the list returned by `__cellsCrossSegment(c1, c2)` -/
-theorem cellsCross_complete {fl : α → Int} (hf : IsFloor fl) (c1 c2 : α × α) (s : α) (hs0 : 0 ≤ s) (hs1 : s ≤ 1) :
-    (fl (c1.1 + s * (c2.1 - c1.1)), fl (c1.2 + s * (c2.2 - c1.2))) ∈ cellsCross fl c1 c2 := by
+/-- one axis of `cells_complete`: the clamped integer index `min(floor x, n − 1)` of a fractional index `x ≤ n`
+designates a closed unit interval that contains `x` (the last one is closed on the upper side) -/
+theorem clamp_closed {fl : α → Int} (hf : IsFloor fl) (x : α) (n : Int) (hx : x ≤ ((n : Int) : α)) :
+    (((min (fl x) (n - 1) : Int) : Int) : α) ≤ x ∧ x ≤ (((min (fl x) (n - 1) : Int) : Int) : α) + 1 := by
+  rcases le_total (fl x) (n - 1) with h | h
+  · rw [min_eq_left h]
+    exact ⟨(hf x).1, le_of_lt (hf x).2⟩
+  · rw [min_eq_right h]
+    constructor
+    · have : (((n - 1 : Int) : Int) : α) ≤ ((fl x : Int) : α) := by exact_mod_cast h
+      exact le_trans this (hf x).1
+    · push_cast; linarith
+
+/-- T2 (`cells_complete`): for every point `P` of the segment `[c1, c2]` (fractional cell indices) with
+`Px ≤ csize` and `Py ≤ lsize`, the cell `(min(floor Px, csize − 1), min(floor Py, lsize − 1))` — the cell containing
+`P`, the last column / row being closed on the upper border — is in the list returned by
+`__cellsCrossSegment(c1, c2)` -/
+theorem cellsCross_complete {fl : α → Int} (hf : IsFloor fl) (cs ls : Int) (c1 c2 : α × α) (s : α) (hs0 : 0 ≤ s) (hs1 : s ≤ 1)
+    (hx : c1.1 + s * (c2.1 - c1.1) ≤ ((cs : Int) : α)) (hy : c1.2 + s * (c2.2 - c1.2) ≤ ((ls : Int) : α)) :
+    (min (fl (c1.1 + s * (c2.1 - c1.1))) (cs - 1), min (fl (c1.2 + s * (c2.2 - c1.2))) (ls - 1)) ∈ cellsCross fl cs ls c1 c2 := by
   rw [mem_cellsCross]
-  refine ⟨floor_conv_box hf _ _ s hs0 hs1, floor_conv_box hf _ _ s hs0 hs1, ?_⟩
-  apply cellHit_of_point c1 c2 _ _ s hs0 hs1
-  · exact ⟨(hf _).1, le_of_lt (hf _).2⟩
-  · exact ⟨(hf _).1, le_of_lt (hf _).2⟩
+  obtain ⟨a1, a2⟩ := floor_conv_box hf c1.1 c2.1 s hs0 hs1
+  obtain ⟨b1, b2⟩ := floor_conv_box hf c1.2 c2.2 s hs0 hs1
+  refine ⟨⟨by omega, by omega⟩, ⟨by omega, by omega⟩, ?_⟩
+  exact cellHit_of_point c1 c2 _ _ s hs0 hs1 (clamp_closed hf _ cs hx) (clamp_closed hf _ ls hy)
 
 end TV.Grid
